@@ -64,6 +64,7 @@ FLAVOURS = ("sser", "stcp", "aser", "atcp")
 FLNAME = {"sser": "sync-serial", "stcp": "sync-tcp", "aser": "async-serial", "atcp": "async-tcp"}
 ALPHA = ("ok", "fail", "rerr", "werr", "pclose", "preset", "udisc", "stop", "ans", "send", "t300", "t1100")
 ALPHA_SMALL = ("ok", "fail", "rerr", "werr", "pclose", "udisc", "stop", "ans", "t300", "t1100")
+ALPHA_6 = ("ok", "fail", "rerr", "werr", "pclose", "udisc", "stop", "ans", "t1100")
 
 KEY_D13 = "async-tcp/peer-close/no-reconnect"
 KEY_D14 = "sync-tcp/watchdog/answer-within-rt-dropped-by-poll-margin"
@@ -474,7 +475,7 @@ def plan(ctx):
         else:
             it = sequences(ALPHA, 5)
             if asy:
-                it = itertools.chain(it, itertools.product(ALPHA_SMALL, repeat=6))
+                it = itertools.chain(it, itertools.product(ALPHA_6, repeat=6))
             else:
                 it = itertools.chain(it, (("ok",) + s for s in itertools.product(ALPHA_SMALL, repeat=5)))
         jobs.append((fl, it))
